@@ -44,6 +44,14 @@ def gen_weights(gen, n):
         vals = rs.choice(np.arange(-255, 256), size=40, replace=False)
         p = np.concatenate([np.full(30, 0.9 / 30), np.full(10, 0.1 / 10)])
         w = rs.choice(vals, size=n, p=p)
+    elif dist in ("paltail", "paltail60", "paltail52"):
+        # worst case for the size of the coded stream: just over half of the weights come from <= 32 small values (so a palette
+        # is chosen and uncompressed mode is off), the rest are rare large magnitudes that fall outside the palette and are
+        # coded directly with long GRC codes (well over 9 bits each)
+        frac = {"paltail": 0.55, "paltail60": 0.60, "paltail52": 0.52}[dist]
+        small = rs.choice(np.arange(-16, 17), size=30, replace=False)
+        big = np.concatenate([np.arange(150, 240), -np.arange(150, 240)])
+        w = np.where(rs.random_sample(n) < frac, rs.choice(small, size=n), rs.choice(big, size=n))
     elif dist == "uniform9":
         w = rs.randint(-255, 256, size=n)
     elif dist == "uniform8":
